@@ -295,6 +295,22 @@ class XMLReader(object):
                    % root.attrib['version'])
             raise InvalidVersionException(msg)
 
+    def _file_access_failed(self):
+        """
+        Checks the error log of the last lxml parser run for a problem accessing
+        the input file. The parser library logs these with an I/O error type
+        (IO_ENOENT, IO_EACCES, IO_EISDIR, IO_UNKNOWN for a failed read, ...), while
+        content it cannot decode or parse is logged with a parser error type.
+
+        :returns: False only if the log contains errors and none of them is a
+                  file access error.
+        """
+        log = self.parser.error_log
+        if not len(log):
+            return True
+
+        return any(entry.type_name.startswith("IO_") for entry in log)
+
     def from_file(self, xml_file):
         """
         Parses the datastream from a file like object and return an odML data structure.
@@ -309,6 +325,14 @@ class XMLReader(object):
                 xml_file.close()
         except ET.XMLSyntaxError as exc:
             raise ParserException(exc.msg)
+        except OSError as exc:
+            # lxml raises an OSError not only for a file it cannot access, but also
+            # for a file it can read when the content cannot be decoded, e.g. bytes
+            # that are invalid in the declared encoding. Only the latter is a problem
+            # of the parser.
+            if self._file_access_failed():
+                raise
+            raise ParserException(str(exc))
 
         self._handle_version(root)
         doc = self.parse_element(root)
